@@ -7,7 +7,7 @@ from vf.runner import hyp_run, run_cases, guard, fail, exc_failure
 RULE = ("lattice (7 families incl. triclinic and rhombohedral in both settings, pseudo-symmetric cells c=a(1+1e-3), "
         "centrings P/I/F/A/B/C and R on hexagonal axes, cell edges from 2.5 to 108 A) x makerings(d* limit giving <= ~14 rings, tol) x ring pair "
         "(r1,r2) among the first 10 rings incl. r1=r2 x true hkl pairs drawn from the two rings (all pairs of rings "
-        "with <= 48 members in the thorough tier, up to 24 sampled pairs otherwise) x uniform rotation; "
+        "with <= 48 members in the thorough tier, up to 24 sampled pairs otherwise) x uniform rotation; ring/pair-table cache histories (rings re-made with another limit or tolerance on the same object, compared with a fresh object); "
         "g = U.B.h exact; oracle: truth known, candidate equivalent iff UBI_cand.UB_true is integer unimodular "
         "with det +1; non-trivial = the angle class holds >= 2 inequivalent hkl pairs, or r1=r2, or a non-cubic "
         "cell; distinct = hash of (cell, centring, ring pair, hkl pair, rotation)")
@@ -154,6 +154,40 @@ def check(case, rec=None, allpairs=False):
                               "to the generating one; %s" % where, mode="plain"))
         if fails:
             break
+    # ---- cache history: the pair table is cached per ring pair; re-making the rings (other limit, same
+    #      tolerance; other tolerance) must not leave a stale table behind
+    if not fails and ntested > 0:
+        a, b = pairs[0]
+        for lim2, tol2 in ((dsmax * 1.3, rtol), (dsmax, rtol * 2), (dsmax, rtol)):
+            ok, e = guard(uc.makerings, lim2, tol2)
+            if not ok:
+                fails.append(exc_failure("makerings (history)", e))
+                break
+            fresh = unitcell.unitcell(cell, sym)
+            fresh.makerings(lim2, tol2)
+            for q1 in range(min(3, len(uc.ringds))):
+                q2 = (q1 + 1) % len(uc.ringds)
+                H1 = uc.ringhkls[uc.ringds[q1]]
+                H2 = uc.ringhkls[uc.ringds[q2]]
+                ga, gb = UB @ np.array(H1[0], float), UB @ np.array(H2[-1], float)
+                cs = ga @ gb / np.sqrt((ga @ ga) * (gb @ gb))
+                if abs(cs) >= 0.97:
+                    continue
+                ok1, e1 = guard(uc.orient, q1, ga.copy(), q2, gb.copy(), 0, 1e-7)
+                ok2, e2 = guard(fresh.orient, q1, ga.copy(), q2, gb.copy(), 0, 1e-7)
+                if ok1 != ok2:
+                    fails.append(fail("cache", "orient after re-making the rings behaves differently from a fresh "
+                                      "unitcell (%s vs %s); cell %s %s" % (e1, e2, np.round(cell, 4).tolist(), sym),
+                                      mode="history"))
+                elif ok1 and (len(uc.UBIlist) != len(fresh.UBIlist) or any(
+                        np.abs(np.asarray(x) - np.asarray(y)).max() > 1e-9 for x, y in zip(uc.UBIlist, fresh.UBIlist))):
+                    fails.append(fail("cache", "orient(rings %d,%d) after makerings(%g,%g) differs from a fresh unitcell "
+                                      "object; cell %s %s" % (q1, q2, lim2, tol2, np.round(cell, 4).tolist(), sym),
+                                      mode="history"))
+                if fails:
+                    break
+            if fails:
+                break
     if rec is not None:
         rec.count(max(ntested - 1, 0))
         nt = ntested > 0 and (degenerate > 0 or r1 == r2 or case["family"] != "cubic")
@@ -173,7 +207,7 @@ def run_shard(rec):
     if rec.shard == 0:
         run_cases(rec, "pairs", REGRESSION, lambda c: check(c, rec, allpairs=True))
     hyp_run(rec, "pairs", cases(), lambda c: check(c, rec, allpairs=not quick),
-            max_examples=300 if quick else 2500)
+            max_examples=200 if quick else 2500)
 
 
 def replay(sub, case, rec):
